@@ -195,17 +195,15 @@ Definition punct_stop (t : bytes) : bool :=
 
 (* variable_declarator handling inside local_variable_declaration / field_declaration *)
 Definition declarator (src : bytes) (ch : cst) (name0 value0 : bytes) : bytes * bytes :=
-  let name1 := content src ch in
-  let fix go (ks : list cst) (name value : bytes) : bytes * bytes :=
+  let name1 := match child_by_field ch "name" with Some nm => content src nm | None => content src ch end in
+  let fix go (ks : list cst) (value : bytes) : bytes :=
       match ks with
-      | [] => (name, value)
+      | [] => value
       | k :: r =>
-          let name' := if is_ty "identifier" k then content src k else name in
           let value' := if is_ty "=" k then value ++ concat (List.map (content src) r) else value in
-          go r name' value'
+          go r value'
       end in
-  let '(name2, value2) := go (c_kids ch) name1 value0 in
-  (name2, remove_byte nl (remove_byte x20 value2)).
+  (name1, remove_byte nl (remove_byte x20 (go (c_kids ch) value0))).
 
 (* a node with every optional attribute empty *)
 Definition mk_node (idpre ty name snip : bytes) (line : N) (ext : bool) (file : bytes) (isj : bool) : node :=
